@@ -358,6 +358,11 @@ LOOP:
 						c.run(ctx, job)
 					}(job)
 					c.resetTimer()
+				} else {
+					// We woke up for a job that has since been
+					// removed or replaced, so the timer is not
+					// armed for the current head.  Arm it.
+					c.resetTimer()
 				}
 			}
 			c.Unlock()
